@@ -290,6 +290,28 @@ func runCase(t *rapid.T) {
 	K := counts[j]
 	torn := rapid.Bool().Draw(t, "tornTail")
 	_ = torn
+	// A tie break is remove + add: the state between them (old tip removed, sibling not yet added) is a legitimate landing point.
+	// It is computed on a third node WITHOUT the tie-break code: replay the history up to the step and delete the tip the way a delete
+	// step does. (Until round 8 any database that was neither "before" nor "after" was accepted as "between" after a structural check
+	// that reads through the engine's own getters: orphan records left by a torn removal would have passed - found by the oracle audit.)
+	var between map[string]string
+	if steps[j].Kind == "tiebreak" {
+		fsb := prepareFS()
+		nb, err := newNodeOn(fsb, cfg)
+		if err != nil {
+			t.Fatalf("node: %v", err)
+		}
+		for i := 0; i < j; i++ {
+			if err := runStep(nb, steps[i]); err != nil {
+				t.Fatalf("replay step %d for the between-state: %v\n%s", i, err, strings.Join(hist, "\n"))
+			}
+		}
+		if err := nb.Exec.VerifDeleteBlock(nb.Tip(), false); err != nil {
+			t.Fatalf("between-state: delete of the tip failed: %v\n%s", err, strings.Join(hist, "\n"))
+		}
+		between = node.NormDump(nb.Dump())
+		nb.Close()
+	}
 	for k := 0; k <= K; k++ {
 		fs := prepareFS()
 		n, err := newNodeOn(fs, cfg)
@@ -319,9 +341,7 @@ func runCase(t *rapid.T) {
 		allowed := []map[string]string{dumps[j], dumps[j+1]}
 		names := []string{"before", "after"}
 		if steps[j].Kind == "tiebreak" {
-			// remove + add are two atomic steps; the state between them (tip removed) is a legitimate landing point.
-			// It equals the state before the replaced block was applied, apart from what C05 exempts; compare structurally only.
-			allowed = append(allowed, nil)
+			allowed = append(allowed, between)
 			names = append(names, "between")
 		}
 		landed := ""
@@ -330,12 +350,13 @@ func runCase(t *rapid.T) {
 				landed = names[i]
 			}
 		}
-		if landed == "" && steps[j].Kind == "tiebreak" {
-			landed = "between"
-		}
 		if landed == "" {
-			t.Fatalf("crash at fs-op %d/%d of step %d (%s; step err=%v): database is neither the state before nor after the step\nvs before: %s\nvs after: %s\n%s",
-				k, K, j, steps[j].Desc, stepErr, dumpDiff(dumps[j], got), dumpDiff(dumps[j+1], got), strings.Join(hist, "\n"))
+			extra := ""
+			if between != nil {
+				extra = "\nvs between (tip removed): " + dumpDiff(between, got)
+			}
+			t.Fatalf("crash at fs-op %d/%d of step %d (%s; step err=%v): database is neither the state before nor after the step\nvs before: %s\nvs after: %s%s\n%s",
+				k, K, j, steps[j].Desc, stepErr, dumpDiff(dumps[j], got), dumpDiff(dumps[j+1], got), extra, strings.Join(hist, "\n"))
 		}
 		if err := checkStructure(n2); err != nil {
 			t.Fatalf("crash at fs-op %d/%d of step %d (%s): landed %s but %v\n%s", k, K, j, steps[j].Desc, landed, err, strings.Join(hist, "\n"))
